@@ -71,9 +71,18 @@ pub fn state_code(s: v::BuildState) -> usize {
 /// Progress implementation that records callbacks into n2's verif event log (so they are
 /// totally ordered with the state transitions).
 pub struct RecProgress;
+/// Things the real code did that no correct run ever does (a total that is not the sum of the
+/// buckets, an include note shown to the user, ...): collected per case and emitted as an extra
+/// case line (`anomalies ...`) so that the driver reports them as property failures.
+pub static ANOMALIES: std::sync::Mutex<Vec<String>> = std::sync::Mutex::new(Vec::new());
+pub fn anomaly(s: String) { let mut a = ANOMALIES.lock().unwrap(); if a.len() < 8 && !a.contains(&s) { a.push(s); } }
+pub fn take_anomalies() -> Vec<String> { std::mem::take(&mut *ANOMALIES.lock().unwrap()) }
+
 impl v::Progress for RecProgress {
     fn update(&self, counts: &v::StateCounts) {
         let c = v::counts_array(counts);
+        let sum: usize = c.iter().sum();
+        if counts.total() != sum { anomaly(format!("X-total-{}-vs-{}", counts.total(), sum)); }
         v::log_event(v::Event::Note(format!("U {} {} {} {} {} {}", c[0], c[1], c[2], c[3], c[4], c[5])));
     }
     fn task_started(&self, id: v::BuildId, _build: &v::Build) {
@@ -87,6 +96,7 @@ impl v::Progress for RecProgress {
             v::Termination::Interrupted => "i",
         };
         v::log_event(v::Event::Note(format!("F {} {}", id.index(), t)));
+        if result.output.windows(21).any(|w| w == b"Note: including file:") { anomaly(format!("X-note-shown-{}", t)); }
         if !result.output.is_empty() {
             v::log_event(v::Event::Note(format!("O {} {}", id.index(), hex(&result.output))));
         }
